@@ -19,6 +19,7 @@ def units():
         Unit("proj_eqr_range", P + "proj_eqr_range", ["proj", "abs_sign_decompose", "pm1_offset_decompose", "proj_cea", "apply_offset_and_signs", "check_lat"], "equatorial region, |lon| <= 200: |x| <= 8 sign(lon), |y| <= 1 sign(lat)", timeout=600, level="P", extra=nn),
         Unit("proj_cap_range", P + "proj_cap_range", ["proj", "proj_collignon", "apply_offset_and_signs"], "polar caps: 1 <= |y| <= 2 sign(lat), |x| <= 8 sign(lon)", timeout=600, level="P", extra=nn),
         Unit("unproj_eqr_range", P + "unproj_eqr_range", ["unproj", "deproj_cea", "apply_offset_and_signs", "check_y"], "equatorial band: |lat| <= asin(2/3) sign(y); lon sign(x), |lon| <= 2pi", timeout=600, level="P", extra=nn),
+        Unit("unproj_cap_side", P + "unproj_cap_side", ["unproj", "deproj_collignon", "is_not_near_from_pole", "deal_with_numerical_approx_in_edges", "pm1_offset_decompose", "apply_offset_and_signs"], "polar caps (inside the gore, edges included): lat in the cap with sign(y); lon sign(x), in the facet of x and on the same side of its central meridian", timeout=900, level="P", extra=nn),
         Unit("proj_base_cell_contains_band", P + "proj_base_cell_contains_band", ["base_cell_from_proj_coo", "ensures_x_is_positive"], "equatorial band |y| <= 1, all x in ]-8,8[: base cell < 12 whose diamond contains the point; time-bounded refutation search (proof did not finish in 400 s)", kind="search", timeout=240),
         Unit("proj_base_cell_contains_north", P + "proj_base_cell_contains_north", ["base_cell_from_proj_coo"], "north gores incl. points numerically on/just outside a gore edge: base cell < 12, diamond contains the point when strictly inside, no internal assertion/overflow fails", timeout=900, level="P"),
         Unit("proj_base_cell_contains_south", P + "proj_base_cell_contains_south", ["base_cell_from_proj_coo"], "south gores: same", timeout=900, level="P"),
